@@ -15,8 +15,9 @@ RULE = ("texts are produced with csv.writer from tables of cell texts (or, famil
 ASSUMPTIONS = ["the lexical layer is modelled (Serif.CsvLex: csv.reader's state machine with the dialect defaults read_csv leaves "
                "in place, driven over the lines the file object delivers); on every case the model's records must equal "
                "csv.reader's on an identical source and the model must reject exactly the texts csv.reader rejects (a "
-               "disagreement is a harness error, not a verdict); how the file object splits a text into lines, NUL characters "
-               "and dialect options read_csv does not pass stay with CPython",
+               "disagreement is a harness error, not a verdict); how the file object cuts the text into lines is modelled as well "
+               "(splitP univ for sources with newline='', splitP lf for plain StringIO) and compared with the lines Python delivers; "
+               "decoding of bytes, NUL characters and dialect options read_csv does not pass stay with CPython",
                "Python's str.strip / int() / float() on each cell text are the classification oracle",
                "zero-column inputs (blank header line / blank first line of a header-less file) are compared with the "
                "model (no columns, no rows) and are outside the one-row-per-record claim (CONVENTIONS boundary)",
@@ -332,6 +333,7 @@ KNOWN = {}
 LEVEL_TEXT = ("Proof (lexical layer, Serif.CsvLex): for every delimiter other than the quote and CR/LF, every list of records, every field text "
               "(delimiters, quotes, CR, LF included) and every admissible choice of quoted/bare fields, reading the written text back "
               "line by line or as a character stream yields exactly the records (lexer_roundtrip, lexer_roundtrip_lines, "
+              "lexer_roundtrip_universal, lexer_roundtrip_any_policy (any way of cutting lines that respects LF and CR LF), "
               "lexer_lines_eq_stream, quoted_field_verbatim, blank_line_is_empty_record, read_written_records). "
               "Proof (about the pipeline after csv.reader, for every list of records of every shape, every cell-text type and every "
               "instantiation of Python's strip/int()/float()): one column per header cell, names verbatim with repeats kept, "
